@@ -202,6 +202,13 @@ func (l *Lexer) shiftDOCTYPEText() []byte {
 				l.r.Move(1)
 			}
 			continue
+		} else if inBrackets && c == '<' && l.r.Peek(1) == '?' {
+			// processing instruction in the internal subset, may contain quotes, brackets and >
+			l.r.Move(2)
+			for l.r.Peek(0) != 0 && !l.at('?', '>') {
+				l.r.Move(1)
+			}
+			continue
 		} else if c == '[' || c == ']' {
 			inBrackets = (c == '[')
 		} else if c == '>' && !inBrackets {
